@@ -473,6 +473,9 @@ pub fn hyphen_configs() -> Vec<Conv> {
         c.args.push(s2);
         let mut s = CmdSpec::new("sub");
         s.args.push(ArgSpec::flag("x", Some('x'), None));
+        // the subcommand has two optional positionals of its own and did not ask for the setting
+        s.args.push(ArgSpec::pos("from", 1));
+        s.args.push(ArgSpec::pos("to", 2));
         c.subs.push(s);
         c
     });
